@@ -1,0 +1,35 @@
+//go:build verif
+
+package otp
+
+import "net/url"
+
+// Ghost clients: compositions of library calls whose contracts carry the whole-property statements that no
+// single function carries. They are read and verified by the contract checker only; without the verif build
+// tag this file is not compiled, and nothing in the package refers to these functions.
+
+// verifRoundTripTOTP is "parse the textual form of a generated TOTP URL".
+func verifRoundTripTOTP(p URLParam) (*URLParam, error) {
+	u, err := GenerateTOTPURL(p)
+	if err != nil {
+		return nil, err
+	}
+	u2, err := url.Parse(u.String())
+	if err != nil {
+		return nil, err
+	}
+	return ParseOTPAuthURL(u2)
+}
+
+// verifRoundTripHOTP is "parse the textual form of a generated HOTP URL".
+func verifRoundTripHOTP(p URLParam) (*URLParam, error) {
+	u, err := GenerateHOTPURL(p)
+	if err != nil {
+		return nil, err
+	}
+	u2, err := url.Parse(u.String())
+	if err != nil {
+		return nil, err
+	}
+	return ParseOTPAuthURL(u2)
+}
